@@ -556,6 +556,10 @@ def _tabled1(ctx):
     g = V()
     data_events = [e for e in E.events("call") if is_vecwrite(e) or (is_write(e) and isinstance(e.d["args"][0], S) and _renders(e.d["args"][0], form))]
     if not data_events:
+        if any(isinstance(c, ast.Call) and (dotted(c.func) or "").split(".")[-1] == "vecwrite" for c in walk_no_nested(fn)):
+            ctx.fail("wttabled1: a user `form` must render a pair in 16 or 32 characters", fn,
+                     "no write of table data can be reached: the tests on the way contradict each other for every form")
+            return
         raise AnchorError("wttabled1: writes of `form`-rendered data")
     if len(A["atoms"]) > 1 or X[2] != 2:
         g.unknown({"tested quantities": [show(a) for a in A["atoms"]]})
@@ -764,6 +768,10 @@ def _grids(ctx, once):
     form = ("sym", "form")
     vec = [e for e in E.events("call") if is_vecwrite(e)]
     if not vec:
+        if any(isinstance(c, ast.Call) and (dotted(c.func) or "").split(".")[-1] == "vecwrite" for c in walk_no_nested(fn)):
+            ctx.fail("wtgrids: a user `form` must render in 8 or 16 characters", fn,
+                     "no vectorised write can be reached: the tests on the way contradict each other for every form")
+            return
         raise AnchorError("wtgrids: vecwrite call")
     atoms = []
     for e in vec:
